@@ -40,8 +40,13 @@ where
         .read_until(0, &mut user_id)
         .await
         .map_err(|e| Error::ProcessSocksRequest("read user id", e))?;
-    // Remove the null byte
-    user_id.pop();
+    // Remove the null byte. If it is missing, the request was truncated
+    if user_id.pop() != Some(0) {
+        return Err(Error::ProcessSocksRequest(
+            "read user id",
+            std::io::ErrorKind::UnexpectedEof.into(),
+        ));
+    }
     // SOCKS4a: DSTIP is 0.0.0.x with a non-zero x
     let rhost = if ip != 0 && ip >> 8 == 0 {
         let mut domain = Vec::new();
@@ -49,8 +54,13 @@ where
             .read_until(0, &mut domain)
             .await
             .map_err(|e| Error::ProcessSocksRequest("read domain", e))?;
-        // Remove the null byte
-        domain.pop();
+        // Remove the null byte. If it is missing, the request was truncated
+        if domain.pop() != Some(0) {
+            return Err(Error::ProcessSocksRequest(
+                "read domain",
+                std::io::ErrorKind::UnexpectedEof.into(),
+            ));
+        }
         domain
     } else {
         Ipv4Addr::from(ip).to_string().into()
